@@ -22,8 +22,8 @@ spell '=' + size upper-case hex digits of vin, MSB first + '!'; then a second re
 other (vin, size) of the grid is started at any later cycle (including the very next one).
 
 thorough: additionally the two blocks wired back to back through UARTSerializer ->
-UARTDeserializer at 2 system clocks per bit as a closed loop (response text is fed to the
-decoder) for single responses.
+UARTDeserializer (divider n = 2, i.e. 4 system clocks per bit) as a closed loop: the response
+text is what the decoder receives, and its '<digits>!' part is decoded as one store-value command.
 """
 import types
 
@@ -65,18 +65,20 @@ QUICK_ALPHA = '019AF'
 BOUNDS = {
     'quick': 'CMDRequest, wide wires (12/32/12): every stream of <= 2 commands with 1-2 digits from {0,1,9,A,F} (120 commands) and every '
              'stream of <= 3 commands with 1-2 digits from {0,9,F} (48 commands), every producer timing; narrow wires (1/2/1): streams of '
-             'unbounded length over 1-2 digits from {0,9,F} (closed graph). CMDResponse: vin in {0,1,0xA5,0xFEDCBA98,0xFFFFFFFF,'
+             'unbounded length over 1-2 digits from {0,9,F} (closed graph); 10 fixed long commands (up to 9 digits) each followed by <= 1 '
+             'one-digit command. CMDResponse: vin in {0,1,0xA5,0xFEDCBA98,0xFFFFFFFF,'
              '0x0F0F0F0F} x size 1..8, two consecutive responses (second over the whole grid), every ready pacing.',
     'thorough': 'CMDRequest, wide wires: every stream of <= 3 commands with 1-2 digits from {0,1,9,A,F}; <= 4 commands with 1 digit from '
                 '{0,1,9,A,F}; every command with 1-3 digits from all 16 followed by <= 1 command with 1 digit from {0,9,F}; every command '
-                'with 1 digit from {0,9,F} followed by <= 1 command with 1-3 digits from all 16; narrow wires: unbounded streams over '
-                '{0,1,9,A,F} x 1-2 digits (1/2/1 bits) and {0,9,F} x 1-2 digits (2/4/2 bits). CMDResponse: 12 vin values x size 1..8, two '
+                'with 1 digit from {0,9,F} followed by <= 1 command with 1-2 digits from all 16; narrow wires: unbounded streams over '
+                '{0,1,9,A,F} x 1-2 digits (1/2/1 bits) and {0,9,F} x 1-2 digits (2/4/2 bits); the 10 fixed long commands. CMDResponse: 12 vin values x size 1..8, two '
                 'consecutive responses. Closed loop CMDResponse -> UARTSerializer -> UARTDeserializer -> CMDRequest, 6 values x 4 sizes x '
                 '8 start phases.',
 }
 
 HEX = ref.HEX
 WIDTHS = {'wide': (12, 32, 12), 'narrow': (1, 2, 1), 'narrow2': (2, 4, 2)}
+LONG_COMMANDS = ['FEDCBA98!', '0000000A!', '123456789!', '7FFFFFFF!', 'I0123=', 'IFFF=', 'O00FFF?', 'O8A5?', 'K0010;', 'K100;']
 VINS_Q = [0, 1, 0xA5, 0xFEDCBA98, 0xFFFFFFFF, 0x0F0F0F0F]
 VINS_T = VINS_Q + [0x12345678, 0x89ABCDEF, 0x80000000, 0x9, 0xA, 0x0000F000]
 
@@ -113,11 +115,14 @@ def shards(tier):
         for kind in 'IVOK':
             for d0 in HEX:
                 out.append(_req('wide', HEX, 3, 2, first=('' if kind == 'V' else kind) + d0, alpha2='09F', maxdig2=1))
-        # ... and a small first command followed by any command with 1-3 digits from all 16
+        # ... and a small first command followed by any command with 1-2 digits from all 16
         for cmd in ref.all_commands('09F', 1):
-            out.append(_req('wide', '09F', 1, 2, first=cmd, alpha2=HEX, maxdig2=3))
+            out.append(_req('wide', '09F', 1, 2, first=cmd, alpha2=HEX, maxdig2=2))
         out.append(_req('narrow', QUICK_ALPHA, 2, None))
         out.append(_req('narrow2', '09F', 2, None))
+    # a few long numbers (up to 9 digits: one more than the 32-bit value wire holds), each followed by <= 1 small command
+    for cmd in LONG_COMMANDS:
+        out.append(_req('wide', '09F', 1, 2, first=cmd))
     for vin in (VINS_T if T else VINS_Q):
         for size in range(1, 9):
             out.append({'blk': 'resp', 'vin': vin, 'size': size, 'grid': 'T' if T else 'Q'})
@@ -257,8 +262,7 @@ def req_step(c, x):
 
 
 def text_of_trace(trace):
-    """The character stream a per-cycle choice list offers (consecutive repeats of a held character collapse only when
-    the block did not take it, which the trace alone cannot tell — so this is for display of the offered characters)."""
+    """Display form of a per-cycle choice list: the character driven with valid = 1 in each cycle, '.' for valid = 0."""
     return ''.join(x if x else '.' for x in trace)
 
 
@@ -494,7 +498,7 @@ def replay_resp(v):
 # ============================================================================= closed loop (thorough)
 
 def build_loop(d):
-    """CMDResponse -> UARTSerializer -> (tx=rx) -> UARTDeserializer -> CMDRequest, 2 system clocks per bit."""
+    """CMDResponse -> UARTSerializer -> (tx=rx) -> UARTDeserializer -> CMDRequest, divider n = 2 (4 system clocks per bit)."""
     from py4hw.emulation.HILWrapperUART import CMDRequest, CMDResponse
     from py4hw.logic.protocol.uart.serdes import UARTSerializer, UARTDeserializer
     from py4hw.logic.protocol.uart.clock import ClockGenerationAndRecovery
